@@ -65,8 +65,10 @@ func c01PeerEntity(types []c01Type) world.EntSpec {
 	return es
 }
 
-func newC01World(types []c01Type, bound bool) *c01World {
-	c := &c01World{w: world.New(false), types: types, srv: map[model.FeatureTypeType]api.FeatureLocalInterface{}, cli: map[model.FeatureTypeType]api.FeatureLocalInterface{}, writab: map[model.FunctionType]bool{}}
+func newC01World(types []c01Type, bound bool) *c01World { return newC01WorldEv(types, bound, false) }
+
+func newC01WorldEv(types []c01Type, bound, events bool) *c01World {
+	c := &c01World{w: world.New(events), types: types, srv: map[model.FeatureTypeType]api.FeatureLocalInterface{}, cli: map[model.FeatureTypeType]api.FeatureLocalInterface{}, writab: map[model.FunctionType]bool{}}
 	e1 := c.w.AddLocalEntity([]uint{1}, model.EntityTypeTypeCEM, 0)
 	e2 := c.w.AddLocalEntity([]uint{2}, model.EntityTypeTypeCEM, 0)
 	for _, t := range types {
